@@ -251,12 +251,17 @@ def run_relation(res, rng, scn, tr, base=None, capture=False):
         else:
             k = np.array(tr['k'])
             idx = np.repeat(np.arange(len(y)), k)
+            if w is not None:            # base weights with 16 significant bits so that k * w (k <= 5) is exact in float32
+                mant, expo = np.frexp(np.asarray(w, dtype=float))
+                w = np.ldexp(np.round(mant * 65536.0) / 65536.0, expo)
             w0 = k.astype(float) if w is None else gen_models.f32(w * k)
             # the weighted fit is the 'original' here: integer multiples of the base weights (float32 exact)
             gam0, conv0, it0 = fit(scn, X, y, w0, capture=capture)
             X1, y1, w1, Xq1 = X[idx], y[idx], (None if w is None else w[idx]), Xq
         gam1, conv1, it1 = fit(scn, X1, y1, w1, capture=capture)
-    except ValueError as e:          # OptimizationError / NotPositiveDefiniteError etc.: permitted outcomes (C11), nothing to compare
+    except Exception as e:           # ValueError (OptimizationError, NotPositiveDefiniteError ..): permitted outcomes (C11), nothing to compare;
+        if not isinstance(e, ValueError):        # other exception types are C01 / C02 / C11 business: noted, not compared
+            res.notes.append('fit raised %s: %s (scenario %s)' % (type(e).__name__, str(e)[:120], repr(scn['specs'])[:300]))
         return 'skipped:fit raised %s' % type(e).__name__, None
     if not (conv0 and conv1):
         return 'skipped:not converged', None
@@ -347,7 +352,9 @@ def linear_checks(res, scn, X, y, w, c, y2, Xq):
         gc, cc, _ = fit(scn, X, c * y, w)
         g2, c2, _ = fit(scn, X, y2, w)
         g12, c12_, _ = fit(scn, X, y + y2, w)
-    except ValueError as e:
+    except Exception as e:
+        if not isinstance(e, ValueError):
+            res.notes.append('fit raised %s: %s (scenario %s)' % (type(e).__name__, str(e)[:120], repr(scn['specs'])[:300]))
         return 'skipped:fit raised %s' % type(e).__name__
     if not (c1 and cc and c2 and c12_):
         return 'skipped:not converged'
@@ -394,13 +401,17 @@ def linear_in_y(res, rng, scn):
 
 
 # ----------------------------------------------------------------------------- exact cross check through Coq (LinearGAM)
-def cross_case(scn, it_eq, it_coef):
+def cross_case(scn, it_eq, it_coef, min_tole=None):
     """C01's exact dyadic checker on the normal equations captured from ONE fit with the coefficients of the OTHER fit:
     the theorems predict that the solution of the original problem solves the transformed problem's equations"""
+    import re
     from props import c01
     it = dict(it_eq)
     it['coef_new'] = it_coef['coef_new']
-    return c01.case_of(scn, it)
+    case = c01.case_of(scn, it)
+    if min_tole is not None:     # replication: pyGAM evaluates W = sqrt(w) in float32, so W^2 = w only to single precision (relative 6e-8 .. 1e-7)
+        case = re.sub(r'\((-\d+)\)%Z\)$', lambda m_: '(%d)%%Z)' % max(int(m_.group(1)), min_tole), case)
+    return case
 
 
 def run(res):
@@ -429,8 +440,10 @@ def run(res):
             capture = (cls == 'LinearGAM' and i < (4 if res.tier == 'quick' else 20))
             try:
                 base = fit(scn, scn['X'], scn['y'], scn['w'], capture=capture)
-            except ValueError as e:
+            except Exception as e:
                 res.count('base fit raised %s' % type(e).__name__)
+                if not isinstance(e, ValueError):
+                    res.notes.append('fit raised %s: %s (scenario %s)' % (type(e).__name__, str(e)[:120], repr(scn['specs'])[:300]))
                 continue
             for mk in (transform_perm, transform_affine, transform_repl):
                 tr = mk(rng, scn)
@@ -450,7 +463,7 @@ def run(res):
                                      compared={nm: v for nm, v, _ in info['checks']}) if i == 1 else None)
                 res.count('%s %s' % (cls, kind))
                 if capture and info['it0'] is not None and info['it1'] is not None and not gam_has_escalation(info):
-                    cross.append(cross_case(dict(scn), info['it1'], info['it0']))
+                    cross.append(cross_case(dict(scn), info['it1'], info['it0'], min_tole=-20 if kind == 'replication' else None))
                     cross_meta.append(dict(d, transform=kind))
             if cls == 'LinearGAM' and 'scale' not in scn['kw']:
                 st = linear_in_y(res, rng, scn)
@@ -514,7 +527,7 @@ def run(res):
             res.case(repr(('cross', i, mt['transform'], repr(mt['specs']))))
     res.extra['tolerances'] = {'predictions / edof / scale / GCV / cov': '%g relative (to the largest entry)' % TOL, 'p-values': '%g absolute' % TOL,
                                'convergence of the compared fits': 'tol=%g, max_iter=%d; unconverged pairs are counted, not compared' % (FIT_TOL, MAX_ITER),
-                               'exact cross check': 'backward error bound of C01 (64 eps cond^2 clipped to [2^-27, 2^-16])'}
+                               'exact cross check': 'backward error bound of C01 (64 eps cond^2 clipped to [2^-27, 2^-16]); replication: at least 2^-20, pyGAM evaluates W = sqrt(w) in float32'}
     res.trusted.append('uniqueness of the fit is proved from positive definiteness of the total penalty (ridge sqrt(eps) I): C12_normal_equations_unique')
 
 
